@@ -237,6 +237,18 @@ def _returned_moves_legal(res, ctx, findings, tree, whole, draws):
                 check_outputs(ev2.solver_calls, ctx, findings, "during get_move", 10)
                 if not any(f.key == "solver-nonfinite" for f in findings):
                     findings.append(Finding("illegal-move-returned", "get_move raised %s: %s" % (type(e).__name__, str(e)[:100])))
+    # a search cut short by the clock before the root was even expanded: no move at all (an
+    # exception) is not a wrong move, but whatever IS handed back must be legal
+    if case["evaluator"] != "network":
+        ev3 = td.Recorder(td.make_evaluator(case), case["sampler"], case["sseed"] + 2)
+        eng3 = mcts.MCTS(attrs.evolve(engine.config, time_limit=1e-9, simulation_limit=max(1, case["budget"])), ev3)
+        with ev3:
+            for _ in range(3):
+                try:
+                    moves.append(("get_move(time_limit=1e-9)", eng3.get_move(res.pos), ser.pos_str(res.pos)))
+                except Exception:
+                    if ctx is not None:
+                        ctx.count("move:no-move-when-the-clock-ran-out")
     lines = []
     for how, m, root_pos in moves:
         try:
